@@ -137,6 +137,11 @@ func c15Scenario(r *Run, ts []pduType, idx int, term string) {
 		switch rng.Intn(4) {
 		case 0: // ... or an undecodable frame does (answered by generic_nack; the Submit stays outstanding)
 			f = genBadFrame(rng, ts, x.c.Seq)
+			for _, o := range subs { // (no caller Write is open when the generic_nack is due: see c16.go)
+				if o.held && w.Release(o.c) {
+					o.held = false
+				}
+			}
 		case 1: // ... or a response PDU of a type that does not answer the request
 			f = genUnsolicited(rng, ts, x.c.Seq)
 		default:
@@ -352,7 +357,7 @@ func c15Many(r *Run, ts []pduType, idx, k int, term string) {
 	if cl != nil && (!w.Returned(cl) || cl.Err != nil || !w.T.IsClosed()) {
 		r.Fail("close-result/many", fmt.Sprintf("Close with %d requests outstanding did not complete its answered unbind", k), tail(input, 900), cl.Class(), "nil, transport closed")
 	}
-	r.Case(fmt.Sprintf("many %s %.120s", label, input), w.CaseExpr(connVariant))
+	r.Case(fmt.Sprintf("many#%d %s %.120s", idx, label, input), w.CaseExpr(connVariant))
 }
 
 // Close whose unbind goes unanswered: after its one-second timeout Done() is closed and blocked Submits are released.
@@ -367,10 +372,13 @@ func c15CloseUnanswered(r *Run, ts []pduType, idx int) {
 		w.Release(c)
 		subs = append(subs, &c15Sub{c: c})
 	}
-	cl := w.Go(100, CallSpec{Kind: "close", Seq: 99})[0]
-	w.Release(cl)
 	tStart := time.Now()
-	w.WaitUntil(3*time.Second, func() bool { return w.Returned(cl) })
+	cl := w.Go(100, CallSpec{Kind: "close", Seq: 99})[0]
+	// One forced group from the return of the unbind's Write to the end of Close's own one-second context: no
+	// snapshot is taken in between, so it does not matter how the controller's progress relates to that timer
+	// (on a loaded machine the second may be over before the Write is released).
+	w.ReleaseNoSync(cl)
+	w.WaitUntil(6*time.Second, func() bool { return w.Returned(cl) })
 	t0 := time.Now()
 	w.force(fmt.Sprintf("CancelCtx %d", cl.ID)) // the one-second timeout of Close is the end of its own context
 	w.sync()
@@ -382,13 +390,14 @@ func c15CloseUnanswered(r *Run, ts []pduType, idx int) {
 	if !w.Returned(cl) || cl.Err == nil {
 		r.Fail("close-result/close-unanswered", "Close with an unanswered unbind did not return an error", input, cl.Class(), "non-nil error after about one second")
 	} else if d := cl.RetAt.Sub(tStart); d < 800*time.Millisecond || d > 2500*time.Millisecond {
+		// (a note, not a verdict: the bound is the library's timer plus the machine's load)
 		r.Notes = append(r.Notes, "Close with unanswered unbind returned after "+d.String())
 	}
 	for _, s := range subs { // released by the cancel Close always performs; measured from Close's return
 		s.held = false
 	}
 	c15Common(r, w, input, "close-unanswered", subs, t0.Add(-50*time.Millisecond), false)
-	r.Case("close-unanswered "+input, w.CaseExpr(connVariant))
+	r.Case(fmt.Sprintf("close-unanswered#%d %s", idx, input), w.CaseExpr(connVariant))
 }
 
 // keep-alive failure: the enquire_link is never answered; the loop closes the connection and has to return.
@@ -398,25 +407,33 @@ func c15KeepAliveFailure(r *Run, idx int, answerUnbind bool) {
 	w.StartWatch()
 	sub := w.Go(0, CallSpec{Kind: "submit", Seq: 10, P: &pdu.SubmitSM{}})[0]
 	w.Release(sub)
-	w.KeepAlive(time.Hour, 30*time.Millisecond, 50, 51)
+	kaTimeout := 30 * time.Millisecond
+	if relaxed {
+		kaTimeout = 150 * time.Millisecond
+	}
+	w.KeepAlive(time.Hour, kaTimeout, 50, 51)
 	ping := w.KaCall("ping", 50)
 	w.sync()
-	w.Release(ping)
-	// the library's own 30 ms timeout ends the enquire_link; the loop then calls Close: the unbind reaches the transport
-	ok := w.WaitUntil(3*time.Second, func() bool { return w.T.NWrites() >= 3 })
+	// One forced group from the return of the enquire_link's Write over the end of its context (the library's own
+	// timeout) to the unbind of the Close the loop then calls: no snapshot in between, so the observation does not
+	// depend on whether that timer fires before or after the controller releases the Write.
+	w.ReleaseNoSync(ping)
+	ok := w.WaitUntil(6*time.Second, func() bool { return w.T.NWrites() >= 3 })
 	w.force(fmt.Sprintf("CancelCtx %d", ping.ID))
 	cl := w.KaCall("kaclose", 51)
 	w.sync()
 	term := "keepalive-failure-unbind-unanswered"
 	t0 := time.Now()
 	if ok {
-		w.Release(cl)
 		if answerUnbind {
+			w.Release(cl)
 			term = "keepalive-failure-unbind-answered"
 			t0 = time.Now()
 			w.PeerPDU(&pdu.UnbindResp{Header: pdu.Header{Sequence: 51}})
 		} else {
-			w.WaitUntil(3*time.Second, func() bool { return w.doneClosed() })
+			// again one group: Write returns ... Close's own second ends
+			w.ReleaseNoSync(cl)
+			w.WaitUntil(6*time.Second, func() bool { return w.doneClosed() })
 			t0 = time.Now()
 			w.force(fmt.Sprintf("CancelCtx %d", cl.ID))
 			w.sync()
@@ -438,7 +455,7 @@ func c15KeepAliveFailure(r *Run, idx int, answerUnbind bool) {
 	}
 	c15Common(r, w, input, term, []*c15Sub{{c: sub}}, t0.Add(-50*time.Millisecond), answerUnbind)
 	if w.KaReturned() {
-		r.Case(term+" "+input, w.CaseExpr(connVariant))
+		r.Case(fmt.Sprintf("%s#%d %s", term, idx, input), w.CaseExpr(connVariant))
 	}
 }
 
@@ -490,7 +507,7 @@ func c15KeepAliveEOF(r *Run, idx int, idle bool) {
 	}
 	c15Common(r, w, input, term, nil, t0, true)
 	if w.KaReturned() {
-		r.Case(term+" "+input, w.CaseExpr(connVariant))
+		r.Case(fmt.Sprintf("%s#%d %s", term, idx, input), w.CaseExpr(connVariant))
 	}
 }
 
@@ -513,7 +530,7 @@ func c15ReadDeadline(r *Run, ts []pduType, idx int) {
 		return
 	}
 	c15Common(r, w, input, "read-deadline", []*c15Sub{{c: c}}, t0.Add(-50*time.Millisecond), true)
-	r.Case("read-deadline "+input, w.CaseExpr(connVariant))
+	r.Case(fmt.Sprintf("read-deadline#%d %s", idx, input), w.CaseExpr(connVariant))
 }
 
 // ---------------------------------------------------------------- pre-repair witnesses
@@ -533,7 +550,7 @@ func c15Witnesses(r *Run) {
 					fmt.Sprintf("close=%s watch_returned=%v done=%v panics=%v", cl.Class(), w.WatchReturned(), w.doneClosed(), ps),
 					"Close returns nil, Watch returns without panic, Done() closed")
 			}
-			r.Case("witness D27 "+input, w.CaseExpr(connVariant))
+			r.Case("witness-D27 "+input, w.CaseExpr(connVariant))
 		}
 		w.Shutdown()
 	}
@@ -550,7 +567,7 @@ func c15Witnesses(r *Run) {
 				r.Fail("watch/blocked-delivery-at-teardown", "Watch blocked handing a PDU to PDU() does not notice the teardown", input,
 					fmt.Sprintf("watch_returned=%v panics=%v", w.WatchReturned(), w.Panics()), "Watch returns")
 			}
-			r.Case("witness blocked-delivery "+input, w.CaseExpr(connVariant))
+			r.Case("witness-blocked-delivery "+input, w.CaseExpr(connVariant))
 		}
 		w.Shutdown()
 	}
@@ -572,7 +589,7 @@ func c15Witnesses(r *Run) {
 					"deliver_sm 300 is delivered, Watch returns on EOF")
 			}
 			_ = c // its Write stays open: released now it would find both its response and the closed connection ready
-			r.Case("witness D32 "+input, w.CaseExpr(connVariant))
+			r.Case("witness-D32 "+input, w.CaseExpr(connVariant))
 		}
 		w.Shutdown()
 	}
